@@ -9,6 +9,11 @@ GEN_OUT = os.path.join(core.LEAN, "PyribsGen", "Formulas.lean")
 
 
 def translate(ctx):
+    if os.environ.get("VERIF_NO_TRANSLATE") == "1":
+        # (mutation runs test many source trees at once; they leave the shared generated file alone and judge with
+        # the dynamic checks only)
+        ctx.extra["formulas"] = {"skipped": "VERIF_NO_TRANSLATE=1"}
+        return
     t0 = time.time()
     try:
         recs, changed = formulas.translate(core.REPO, GEN_OUT)
